@@ -1,10 +1,108 @@
-"""C14 - end markers go to the old tunnel, once."""
+"""C14 - end markers go to the old tunnel, once.
+
+Two legs.  BESS: the common L1 driver (tools/props/l1props.py, monitor l1.mon_c14, correspondence with Model/Agent.v).
+UP4: the same statement on the real UP4 plug-in (tools/props/c14up4.py, harness mode "c14"): End Markers are observed as
+PacketOut messages at the P4Runtime server; failed updates are produced by Write faults (whole-RPC failures and p4.Error
+lists such as [OK, NOT_FOUND]) at every Write position of the modification."""
+import copy
+
 from props.l1props import *
+from props import c14up4 as U
+
+UP4_TRUSTED = [
+    "harness/go/verif_c14_test.go: the real HandlePFCPMsg / Shutdown on PFCPConn struct literals with the REAL UP4 plug-in behind a recorder of the "
+    "datapath interface (order and results of SendMsgToUPF / SendEndMarkers); harness/go/verif_p4rt_test.go: the fake P4Runtime server (Write "
+    "semantics, fault injection on the k-th Write, PacketOut capture stamped with the number of Writes received)",
+    "tools/props/c14up4.py + tools/props/c04.py (Gen04): UP4 envelope of the generated histories and the control plane's view of the old tunnel",
+]
+UP4_RULE = ("; UP4 leg: 6 scenarios (handover with 0/1/2 QERs, with application filter, two PDR pairs, new TEID on the same gNB, second handover) "
+            "fault-free with end markers enabled and disabled, then the flagged modification once per (Write position k, 8 answers of the switch: "
+            "gRPC UNAVAILABLE, UNKNOWN without details, p4.Error lists [NOT_FOUND..], [OK,NOT_FOUND..], [NOT_FOUND,OK..], [ALREADY_EXISTS,NOT_FOUND..], "
+            "[OK,RESOURCE_EXHAUSTED..], [OK,ALREADY_EXISTS,NOT_FOUND..]); random UP4 histories (flag values 0/1/2/3/6/absent, new TEID / handover, several "
+            "FARs and one FAR twice per message, unknown FAR, other modifications, failing Writes, deletions, release, teardown)")
+
+
+def up4_leg(ck, tier, seed, replay_case=None):
+    rng = rng_for(seed, "C14-up4")
+    try:
+        binary = build_harness()
+        if replay_case is not None:
+            cases = [replay_case]
+            outs = U.run_up4(binary, [replay_case["input"]], tag="c14u_replay")
+        else:
+            fam = U.c14_family(rng)
+            off = []
+            for c in fam:
+                d = copy.deepcopy(c)
+                d["input"]["cfg"]["end_marker"] = False
+                d["name"] += "/disabled"
+                for it in d["intents"]:
+                    if it.get("markers"):
+                        it["markers"] = []
+                off.append(d)
+            bases = fam + off + U.c14_corpus()
+            bouts = U.run_up4(binary, [c["input"] for c in bases], tag="c14u_base")
+            sweep = U.c14_sweep(fam, bouts[:len(fam)])
+            rnd = []
+            for _ in range(120 if tier == "quick" else 2500):
+                rnd.append(U.c14_random(random.Random(rng.getrandbits(64))))
+            more = sweep + rnd
+            cases = bases + more
+            outs = bouts + U.run_up4(binary, [c["input"] for c in more], tag="c14u")
+    except HarnessError as e:
+        ck.tie("UP4 leg: harness builds and runs against the current tree", False, str(e)[-1500:])
+        return
+    ck.tie("UP4 leg: harness builds and runs against the current tree", True)
+    dist = ck.distribution if isinstance(ck.distribution, dict) else {}
+    n_failed_updates = n_markers = nconfirm = 0
+    for c, o in zip(cases, outs):
+        ck.count(["up4", c["input"]["cfg"]["end_marker"]] + [e.get("hex", e["k"]) + str(e.get("faults", "")) for e in c["input"]["events"]], True)
+        for it, ob in zip(c["intents"], o.get("obs", [])):
+            if it.get("op") == "mod":
+                k = f"up4:mod/{it.get('kind', '')}/{it.get('expect', '')}"
+                dist[k] = dist.get(k, 0) + 1
+                n_markers += len(ob.get("pkts", []))
+                n_failed_updates += 1 if any(U.write_failed(w) for w in ob.get("writes", [])) else 0
+        seen = set()
+        for sig0, msg, i in U.mon_c14_up4(c, o):
+            sig = f"{c['tag']}:{sig0}" if c.get("tag") else sig0
+            if sig in seen:
+                continue
+            seen.add(sig)
+            if replay_case is None and not c.get("tag") and nconfirm < 10:
+                nconfirm += 1
+                if not U.confirmed(binary, c, sig0, U.mon_c14_up4):
+                    ck.notes["unconfirmed_failures"] = ck.notes.get("unconfirmed_failures", 0) + 1
+                    continue
+            ob = o.get("obs", [])
+            ck.fail(sig, f"UP4 {c['name']}: {msg}", {"leg": "up4", "tag": c.get("tag"), "name": c["name"], "input": c["input"], "intents": c["intents"], "event": i,
+                                                     "impl_event": {k: v for k, v in (ob[i] if i < len(ob) else {}).items() if k not in ("tables", "up4", "store", "pools")}})
+    ck.distribution = dist
+    ck.notes["up4_leg"] = {"histories": len(cases), "end_marker_packet_outs": n_markers, "modifications_with_a_failed_write": n_failed_updates}
 
 
 def run(tier, seed, replay=None):
-    ck, _ = run_prop("C14", tier, seed, replay, 500, 6000,
-                     rule="random histories over 2 associations x up to 4 sessions (setup, establishment incl. without association, the "
-                          "modification kinds of tools/l1.py, deletion, unknown-SEID requests, heartbeat, report response, release, teardown, restart), "
-                          "sequence numbers incl. 0 / 2^24-1, CP SEIDs incl. 0 / 2^64-1; distinct = distinct event byte sequences")
-    return ck if isinstance(ck, int) else ck.finish()
+    rp = json.load(open(replay))["case"] if replay else None
+    rule = ("random histories over 2 associations x up to 4 sessions (setup, establishment incl. without association, the "
+            "modification kinds of tools/l1.py, deletion, unknown-SEID requests, heartbeat, report response, release, teardown, restart), "
+            "sequence numbers incl. 0 / 2^24-1, CP SEIDs incl. 0 / 2^64-1; distinct = distinct event byte sequences" + UP4_RULE)
+    if rp is not None and rp.get("leg") == "up4":
+        ck = Check("C14", tier, seed)
+        ck.trusted = L1_TRUSTED + UP4_TRUSTED
+        ck.rule = rule
+        ck.prove(["Props/C14.vo", "Run/Eval_L1.vo"])
+        up4_leg(ck, tier, seed, replay_case=rp)
+        return ck.finish()
+    ck, _ = run_prop("C14", tier, seed, replay, 500, 6000, rule=rule)
+    if isinstance(ck, int):
+        return ck
+    ck.trusted = L1_TRUSTED + UP4_TRUSTED
+    ck.assumptions = list(ck.assumptions) + [
+        "UP4 leg: a failed update = a modification one of whose Write RPCs failed (gRPC error, or a p4.Error list with a status other than OK / "
+        "ALREADY_EXISTS); 'after the new rule has been programmed' = the hand-over to the plug-in follows the accepted SendMsgToUPF(Mod) and every "
+        "PacketOut reaches the switch after the Writes of that call",
+        "UP4 leg envelope: a session is not modified again after one of its modifications was rejected (the stored FAR is overwritten in place before "
+        "the datapath is asked: F12 family)"]
+    if not replay:
+        up4_leg(ck, tier, seed)
+    return ck.finish()
